@@ -80,6 +80,13 @@ def gen_case(streams, tier, avoid):
                 elif r < 0.8 and prog["vars"]:
                     name = v.choice(sorted(prog["vars"]))
                     kind = prog["vars"][name]["kind"]
+                    nested = [n_ for n_ in sorted(prog["vars"]) if gen.nested_partner(prog["vars"][n_]["value"]) is not None]
+                    if nested and v.random() < 0.6:
+                        # an update inside a nested container of the variable, in place, and back
+                        name = v.choice(nested)
+                        pre.append({"op": "mutate_and_back", "var": name, "value": gen.nested_partner(prog["vars"][name]["value"]),
+                                    "entry": v.choice(ents), "inplace": True})
+                        continue
                     pre.append({"op": "mutate_and_back", "var": name, "value": v.choice(gen.VAR_VALUES[kind]),
                                 "entry": v.choice(ents), "inplace": kind in ("list", "dict") and v.random() < 0.6})
                 else:
